@@ -361,3 +361,35 @@ Proof.
       repeat constructor; unfold word_fits; cbn; lia.
   - repeat constructor; lia.
 Qed.
+
+Example texmesh_ok_example :
+  let ps : vprops := [(Float, "z"); (Float, "x"); (Int, "id"); (Float, "y")]%string in
+  let rec := [1065353216; 1073741824; 7; 1077936128] in
+  let fps := [(UChar, Float, "texcoord"); (Int, UInt, "vertex_index")]%string in
+  let a := {| a_fmt := ASCII; a_vprops := ps; a_verts := [rec; rec; rec; rec]; a_fprops := Some fps;
+              a_faces := [[[0; 0; 1065353216; 0; 1065353216; 1065353216; 0; 1065353216]; [0; 1; 2; 3]];
+                          [[0; 0; 1065353216; 0; 0; 1065353216]; [3; 1; 0]]] |} in
+  texmesh_ok a fps 1 0 Int UInt UChar Float /\
+  Forall (fun f => Forall (fun w => w < N.of_nat (List.length (a_verts a))) (nth 1 f [])) (a_faces a) /\
+  option_map m_idx (match read_mesh (encode a) with Ok m => Some m | Err _ => None end) = Some [0; 1; 2; 3; 4; 5; 6; 7; 8]%Z.
+Proof.
+  cbv zeta. split; [|split; [repeat constructor; cbn; lia|vm_compute; reflexivity]].
+  unfold texmesh_ok. cbn [a_fmt a_vprops a_verts a_fprops a_faces].
+  split; [reflexivity|]. split; [discriminate|].
+  split; [repeat constructor; cbn; intuition discriminate|].
+  split; [repeat constructor|].
+  split; [repeat constructor; fits|].
+  split; [vm_compute spec_entries; repeat constructor; intros _; discriminate|].
+  split; [repeat constructor|].
+  split; [reflexivity|]. split; [reflexivity|]. split; [reflexivity|]. split; [reflexivity|].
+  split; [reflexivity|]. split; [left; reflexivity|].
+  split.
+  - assert (L : forall r ws, count_ty_ok (fst r) = true -> N.of_nat (List.length ws) < 256 ->
+                Forall (word_fits (snd r)) ws -> list_ok r ws).
+    { intros r ws C Ln F. unfold list_ok. repeat split; try assumption; [|lia].
+      destruct r as [[] ?]; try discriminate C; unfold word_fits; cbn; lia. }
+    apply Forall_cons; [split; [|right; split; reflexivity]|apply Forall_cons; [split; [|left; split; reflexivity]|constructor]];
+      (apply Forall2_cons; [|apply Forall2_cons; [|apply Forall2_nil]]); apply L; cbn; try reflexivity; try lia;
+      repeat constructor; unfold word_fits; cbn; lia.
+  - repeat constructor; lia.
+Qed.
